@@ -63,6 +63,11 @@ pub struct LeafScript {
     /// 2 = the call future cannot make progress while another future holds the permit
     #[serde(default)]
     pub permit: u8,
+    /// readiness that lapses: once the leaf has been ready for `.0` executor rounds without being
+    /// called it turns pending for `.1` rounds and then reaches `.2` (a service may stop being
+    /// ready, e.g. because a resource it had was taken by someone else)
+    #[serde(default)]
+    pub lapse: Option<(u8, u8, RFinal)>,
 }
 
 #[derive(Clone, Debug, PartialEq)]
@@ -88,6 +93,8 @@ pub enum RState {
 }
 
 pub struct LeafState {
+    /// rounds of readiness left before it lapses (see `LeafScript::lapse`)
+    pub lapse_left: Option<u8>,
     pub ready: RState,
     pub polled_round: Option<u32>,
     pub waker_ok: bool,
@@ -146,6 +153,8 @@ pub struct World {
     pub permit_used: Cell<(bool, bool)>,
     /// transform items whose object has been dropped
     pub dropped_transforms: RefCell<Vec<usize>>,
+    /// some leaf's readiness lapsed
+    pub lapsed: Cell<bool>,
 }
 
 pub type W = Rc<World>;
@@ -154,7 +163,7 @@ impl World {
     pub fn new(scripts: Vec<LeafScript>, nleaves: usize) -> W {
         let mut leaves = vec![];
         for _ in 0..nleaves {
-            leaves.push(LeafState { ready: RState::Ok, polled_round: None, waker_ok: false, waker: None, calls: 0 });
+            leaves.push(LeafState { lapse_left: None, ready: RState::Ok, polled_round: None, waker_ok: false, waker: None, calls: 0 });
         }
         Rc::new(World {
             log: RefCell::new(vec![]),
@@ -171,6 +180,7 @@ impl World {
             permit_blocked: Cell::new(false),
             permit_used: Cell::new((false, false)),
             dropped_transforms: RefCell::new(vec![]),
+            lapsed: Cell::new(false),
         })
     }
 
@@ -214,6 +224,7 @@ impl World {
             };
             l.polled_round = None;
             l.waker = None;
+            l.lapse_left = self.script(i).lapse.map(|x| x.0);
         }
     }
 
@@ -224,6 +235,26 @@ impl World {
         let n = self.req_ix.get();
         let mut wake = vec![];
         for (i, l) in self.leaves.borrow_mut().iter_mut().enumerate() {
+            if let (RState::Ok, Some(left)) = (l.ready, l.lapse_left) {
+                // readiness that nobody used lapses
+                if left == 0 {
+                    let (_, k, fin) = self.script(i).lapse.unwrap();
+                    l.lapse_left = None;
+                    l.ready = if k > 0 {
+                        RState::Pending(k as u32)
+                    } else {
+                        match fin {
+                            RFinal::Ok => RState::Ok,
+                            RFinal::Err(e) => RState::Err(e),
+                        }
+                    };
+                    self.lapsed.set(true);
+                    moved += 1;
+                } else {
+                    l.lapse_left = Some(left - 1);
+                }
+                continue;
+            }
             if let RState::Pending(k) = l.ready {
                 moved += 1;
                 l.ready = if k > 1 {
